@@ -70,6 +70,8 @@ package template
 
 //@ func tTag(c context, s []byte) (r context, n int)
 //@   serves C01 C08
+//@   requires c.state <= stateError && c.delim <= delimSpaceOrTagEnd
+//@   ensures wf: r.state <= stateError && r.delim <= delimSpaceOrTagEnd && 0 <= n && n <= len(s)
 //@   ensures range: 0 <= n && n <= len(s)
 //@   ensures allws: skipws(s, 0) == len(s) ==> same(r, c) && n == len(s)
 //@   ensures close: skipws(s, 0) < len(s) && s[skipws(s, 0)] == '>' ==> n == skipws(s, 0) + 1 && r.state == ite(isspecial(c.element.name), stateSpecialElementBody, stateText) && r.delim == delimNone && len(r.attr.name) == 0 && len(r.attr.value) == 0 && !r.attr.ambiguousValue && len(r.attr.names) == 0 && isnil(r.err)
@@ -80,12 +82,16 @@ package template
 
 //@ func tAttrName(c context, s []byte) (r context, n int)
 //@   serves C01 C08
+//@   requires c.state <= stateError && c.delim <= delimSpaceOrTagEnd
+//@   ensures wf: r.state <= stateError && r.delim <= delimSpaceOrTagEnd && 0 <= n && n <= len(s)
 //@   ensures bad: attrstop(s, 0) < 0 ==> r.state == stateError && !isnil(r.err) && n == len(s)
 //@   ensures whole: attrstop(s, 0) == len(s) ==> same(r, c) && n == len(s)
 //@   ensures ends: 0 <= attrstop(s, 0) && attrstop(s, 0) < len(s) ==> n == attrstop(s, 0) && r.state == stateAfterName && r.delim == c.delim && same(r.element, c.element) && same(r.attr, c.attr) && same(r.err, c.err) && same(r.scriptType, c.scriptType) && same(r.linkRel, c.linkRel)
 
 //@ func tAfterName(c context, s []byte) (r context, n int)
 //@   serves C01 C08
+//@   requires c.state <= stateError && c.delim <= delimSpaceOrTagEnd
+//@   ensures wf: r.state <= stateError && r.delim <= delimSpaceOrTagEnd && 0 <= n && n <= len(s)
 //@   ensures allws: skipws(s, 0) == len(s) ==> same(r, c) && n == len(s)
 //@   ensures eq: skipws(s, 0) < len(s) && s[skipws(s, 0)] == '=' ==> n == skipws(s, 0) + 1 && r.state == stateBeforeValue
 //@   ensures other: skipws(s, 0) < len(s) && s[skipws(s, 0)] != '=' ==> n == skipws(s, 0) && r.state == stateTag
@@ -93,6 +99,8 @@ package template
 
 //@ func tBeforeValue(c context, s []byte) (r context, n int)
 //@   serves C01 C08
+//@   requires c.state <= stateError && c.delim <= delimSpaceOrTagEnd
+//@   ensures wf: r.state <= stateError && r.delim <= delimSpaceOrTagEnd && 0 <= n && n <= len(s)
 //@   ensures allws: skipws(s, 0) == len(s) ==> same(r, c) && n == len(s)
 //@   ensures dq: skipws(s, 0) < len(s) && s[skipws(s, 0)] == '"' ==> n == skipws(s, 0) + 1 && r.state == stateAttr && r.delim == delimDoubleQuote
 //@   ensures sq: skipws(s, 0) < len(s) && s[skipws(s, 0)] == '\'' ==> n == skipws(s, 0) + 1 && r.state == stateAttr && r.delim == delimSingleQuote
@@ -101,15 +109,21 @@ package template
 
 //@ func tHTMLCmt(c context, s []byte) (r context, n int)
 //@   serves C01 C08
+//@   requires c.state <= stateError && c.delim <= delimSpaceOrTagEnd
+//@   ensures wf: r.state <= stateError && r.delim <= delimSpaceOrTagEnd && 0 <= n && n <= len(s)
 //@   ensures found: exists(p, 0, len(s) - 2, matchat(s, p, "-->")) ==> r.state == stateText && r.delim == delimNone && len(r.element.name) == 0 && len(r.attr.name) == 0 && isnil(r.err) && n >= 3 && n <= len(s) && matchat(s, n - 3, "-->") && forall(q, 0, n - 3, !matchat(s, q, "-->"))
 //@   ensures none: !exists(p, 0, len(s) - 2, matchat(s, p, "-->")) ==> same(r, c) && n == len(s)
 
 //@ func tAttr(c context, s []byte) (r context, n int)
 //@   serves C01 C08
+//@   requires c.state <= stateError && c.delim <= delimSpaceOrTagEnd
+//@   ensures wf: r.state <= stateError && r.delim <= delimSpaceOrTagEnd && 0 <= n && n <= len(s)
 //@   ensures same(r, c) && n == len(s)
 
 //@ func tError(c context, s []byte) (r context, n int)
 //@   serves C01 C08
+//@   requires c.state <= stateError && c.delim <= delimSpaceOrTagEnd
+//@   ensures wf: r.state <= stateError && r.delim <= delimSpaceOrTagEnd && 0 <= n && n <= len(s)
 //@   ensures same(r, c) && n == len(s)
 
 //@ func indexTagEnd(s []byte, tag []byte) (r int)
@@ -125,11 +139,15 @@ package template
 
 //@ func tSpecialTagEnd(c context, s []byte) (r context, n int)
 //@   serves C01 C08
+//@   requires c.state <= stateError && c.delim <= delimSpaceOrTagEnd
+//@   ensures wf: r.state <= stateError && r.delim <= delimSpaceOrTagEnd && 0 <= n && n <= len(s)
 //@   ensures found: isspecial(c.element.name) && exists(p, 0, len(s), endtagat(s, p, c.element.name)) ==> r.state == stateText && r.delim == delimNone && len(r.element.name) == 0 && len(r.attr.name) == 0 && isnil(r.err) && len(r.linkRel) == 0 && len(r.scriptType) == 0 && 0 <= n && n < len(s) && endtagat(s, n, c.element.name) && forall(p, 0, n, !endtagat(s, p, c.element.name))
 //@   ensures none: !(isspecial(c.element.name) && exists(p, 0, len(s), endtagat(s, p, c.element.name))) ==> same(r, c) && n == len(s)
 
 //@ func tText(c context, s []byte) (r context, n int)
 //@   serves C01 C08
+//@   requires c.state <= stateError && c.delim <= delimSpaceOrTagEnd
+//@   ensures wf: r.state <= stateError && r.delim <= delimSpaceOrTagEnd && 0 <= n && n <= len(s)
 //@   ensures range: 0 <= n && n <= len(s)
 //@   ensures none: forall(p, 0, len(s), !tagstart(s, p)) ==> same(r, c) && n == len(s)
 //@   ensures first: exists(p, 0, len(s), tagstart(s, p)) ==> exists(p, 0, len(s), tagstart(s, p) && forall(q, 0, p, !tagstart(s, q)) && ite(commentat(s, p), r.state == stateHTMLCmt && n == p + 4 && len(r.element.name) == 0, r.state == stateTag && ite(s[p+1] == 47, n == tagend(s, p + 2) && len(r.element.name) == 0, n == tagend(s, p + 1) && seqeq(r.element.name, lower(sub(s, p + 1, n))))))
@@ -466,3 +484,16 @@ package template
 //@   option modifies Template.escapeErr Template.Tree Template.text TT_Template.Tree nameSpace.escaped nameSpace.set map[seq]ref:Template#dom map[seq]ref:Template#val
 //@   step 1: !t.nameSpace.escaped
 //@   ensures frozen: old(t.nameSpace.escaped) ==> !isnil(err) && isnil(r) && nochange()
+
+//@ func contextAfterText(c context, s []byte) (r context, n int)
+//@   serves C01 C02 C08 C14
+//@   requires wf: c.state <= stateError && c.delim <= delimSpaceOrTagEnd && (c.delim != delimNone ==> c.state == stateAttr)
+//@   ensures range: 0 <= n && n <= len(s) && r.state <= stateError && r.delim <= delimSpaceOrTagEnd
+//@   ensures unqerror: c.delim == delimSpaceOrTagEnd && exists(j, 0, len(s), unquotedbad(s[j]) && forall(k, 0, j + 1, !isdelimend(c.delim, s[k]))) ==> r.state == stateError && !isnil(r.err) && n == len(s)
+//@   ensures open: c.delim != delimNone && forall(k, 0, len(s), !isdelimend(c.delim, s[k])) && !(c.delim == delimSpaceOrTagEnd && exists(j, 0, len(s), unquotedbad(s[j]))) ==> n == len(s) && r.state == stateAttr && r.delim == c.delim && seqeq(r.attr.value, cat(c.attr.value, s)) && same(r.attr.name, c.attr.name) && same(r.element, c.element) && same(r.linkRel, c.linkRel) && r.attr.ambiguousValue == c.attr.ambiguousValue
+//@   ensures closed: c.delim != delimNone && exists(e, 0, len(s), isdelimend(c.delim, s[e]) && forall(k, 0, e, !isdelimend(c.delim, s[k]) && !(c.delim == delimSpaceOrTagEnd && unquotedbad(s[k])))) ==> r.state == stateTag && r.delim == delimNone && len(r.attr.name) == 0 && len(r.attr.value) == 0 && same(r.element, c.element) && isnil(r.err) && exists(e, 0, len(s), isdelimend(c.delim, s[e]) && forall(k, 0, e, !isdelimend(c.delim, s[k])) && n == e + ite(c.delim == delimSpaceOrTagEnd, 0, 1))
+//@   ensures relkept: c.delim != delimNone && r.state == stateTag && !(c.state == stateAttr && c.element.name == "link" && c.attr.name == "rel") ==> same(r.linkRel, c.linkRel)
+//@   loop 1
+//@     invariant c.state == stateAttr && c.delim == old(c.delim) && len(u) >= 0
+//@     invariant seqeq(c.attr.value, cat(old(c.attr.value), s)) && same(c.attr.name, old(c.attr.name)) && same(c.element, old(c.element)) && same(c.linkRel, old(c.linkRel)) && c.attr.ambiguousValue == old(c.attr.ambiguousValue)
+//@     decreases len(u)
